@@ -3,7 +3,8 @@
    tied to the implementation by the correspondence check (Model/ChkC04.v). *)
 From Coq Require Import List ZArith QArith Qcanon Bool Arith.
 From Dimod Require Import Base.Util Model.Poly Model.View Model.Hist Model.ChkC04
-  Proofs.PolyFacts Proofs.ViewFacts Proofs.HistFacts Proofs.HistWf Proofs.HistWf2 Proofs.HistAtomic.
+  Proofs.PolyFacts Proofs.ViewFacts Proofs.HistFacts Proofs.HistWf Proofs.HistWf2 Proofs.HistAtomic
+  Proofs.HistContract Proofs.HistAtomicQM Gen.Gen_QmLimits Proofs.HistGenTie.
 From Dimod Require Model.Adj Proofs.AdjFacts.
 Import ListNotations.
 Open Scope Qc_scope.
@@ -245,6 +246,68 @@ Theorem C04_adj_energy_is_poly_energy :
   forall m s, Dimod.Model.Adj.Inv m -> Dimod.Model.Adj.energy_adj m s = energy (Dimod.Model.Adj.abs m) s.
 Proof. exact Dimod.Proofs.AdjEnergy.energy_adj_abs. Qed.
 Print Assumptions C04_adj_energy_is_poly_energy.
+
+(* ---------- contract_variables ---------- *)
+(* the public method is a loop over primitive writes; `contract_poly` is that loop on the polynomial,
+   the model's step computes exactly it, and the result's energy at y is the original's at y[v := y[u]]
+   (the merged variable's self interaction reduced by the vartype's rule) *)
+Theorem C04_contract_energy :
+  forall u v s y, B s -> wf s -> has_var s u = true -> has_var s v = true -> u <> v ->
+    (match bvt s with BINARY => y u * y u = y u | _ => y u * y u = 1 end) ->
+    snd (step s (Direct, OContract u v)) = Ok /\
+    energy (st_poly (fst (step s (Direct, OContract u v)))) y = energy (st_poly s) (upd y v (y u)).
+Proof. exact contract_energy. Qed.
+Print Assumptions C04_contract_energy.
+
+Theorem C04_contract_step_is_loop :
+  forall u v s, B s -> wf s -> has_var s u = true -> has_var s v = true -> u <> v ->
+    step s (Direct, OContract u v)
+    = ok (mkSt (st_kind s) (filter (fun i => negb (v_lab i =? v)%nat) (st_vars s))
+               (contract_poly (bvt s) (labels s) u v (st_poly s))).
+Proof. exact contract_step_is_contract_poly. Qed.
+Print Assumptions C04_contract_step_is_loop.
+
+(* ---------- QuadraticModel: the looping methods ---------- *)
+Theorem C04_qm_fix_is_noop_on_failure :
+  forall v a s e, snd (m_fix Direct v a s) = Raised e -> fst (m_fix Direct v a s) = s.
+Proof. exact noop_m_fix_qm. Qed.
+Print Assumptions C04_qm_fix_is_noop_on_failure.
+
+Theorem C04_qm_add_linear_default_is_noop_on_failure :
+  forall v b vt lb ub s e, snd (q_add_linear_dflt v b vt lb ub s) = Raised e -> fst (q_add_linear_dflt v b vt lb ub s) = s.
+Proof. exact noop_q_add_linear_dflt. Qed.
+Print Assumptions C04_qm_add_linear_default_is_noop_on_failure.
+
+(* flip_variable is all-or-nothing provided no neighbour of v is a REAL variable ... *)
+Theorem C04_qm_flip_is_noop_on_failure :
+  forall v s, st_kind s = None -> wf s -> no_real_nb s v ->
+    forall e, snd (m_flip Direct v s) = Raised e -> fst (m_flip Direct v s) = s.
+Proof. exact noop_m_flip_qm. Qed.
+Print Assumptions C04_qm_flip_is_noop_on_failure.
+
+(* ... and is not otherwise: set_quadratic refuses the REAL neighbour after earlier neighbours were
+   rewritten (the same partial write happens in dimod, see KNOWN_FINDINGS / corpus d9) *)
+Theorem C04_qm_flip_refuted :
+  wfb flip_cex = true /\ snd (step flip_cex (Direct, OFlip 0%nat)) = Raised BValue
+  /\ poly_coeff_eqb 3 (st_poly (fst (step flip_cex (Direct, OFlip 0%nat)))) (st_poly flip_cex) = false.
+Proof. exact flip_qm_refuted. Qed.
+Print Assumptions C04_qm_flip_refuted.
+
+(* ---------- ties to the source ---------- *)
+Theorem C04_limits_from_source :
+  forall vt, dflt_lb vt = gen_dflt_lb vt /\ dflt_ub vt = gen_dflt_ub vt /\ vt_min vt = gen_vt_min vt /\ vt_max vt = gen_vt_max vt.
+Proof. exact limits_from_source. Qed.
+Print Assumptions C04_limits_from_source.
+
+(* ---------- the storage back-ends ---------- *)
+Theorem C04_backends_same_step :
+  forall s h o,
+    snd (step s (h, py_op o)) = snd (step s (h, o))
+    /\ st_poly (fst (step s (h, py_op o))) = st_poly (fst (step s (h, o)))
+    /\ st_kind (fst (step s (h, py_op o))) = st_kind (fst (step s (h, o)))
+    /\ forall i, In i (st_vars (fst (step s (h, py_op o)))) <-> In i (st_vars (fst (step s (h, o)))).
+Proof. exact backends_same_step. Qed.
+Print Assumptions C04_backends_same_step.
 
 (* ---------- non-vacuity ---------- *)
 Definition ex_s0 : state :=
